@@ -215,7 +215,15 @@ CHECK_DEADLOCK FALSE
 			return err
 		}
 		// the repository's own tests, run with the hooks on, as a source of traces
-		return c.HarvestRepoTests()
+		if err := c.HarvestRepoTests(); err != nil {
+			return err
+		}
+		// polynomial time: a deep graph with exponentially many paths
+		ladderDepth := 120
+		if c.Thorough {
+			ladderDepth = 400
+		}
+		return ladderCheck(c, ladderDepth)
 	})
 }
 
